@@ -168,13 +168,48 @@ def run(ctx):
                                    "replay": {"kind": "input", "name": name, "op": opn, "writer": str(w), "scenario": lines, "calls": outside[:10], "changed": sentinels}})
         if len(samples) < 6 and cl != "accepted" and opn in ("set", "get"):
             samples.append({"name": name, "op": opn, "writer": str(w), "result": cls})
+    # accepted names with maintenance running over capacity: evictions may remove key-named entries,
+    # but nothing in the dot-prefixed namespace (file names are bytes: one of them is not valid UTF-8)
+    # nor in nested sub-directories is created, replaced, deleted or re-stamped
+    mcases = []
+    for w in (("plain", 1), ("sharded", 4, 4)):
+        d = G.key_path(w, "w", ("ok", 7, 9)).rsplit("/", 1)[0]
+        for opk in (("set", "V", 1), ("put", "V", 1), ("ensure", "val:P:1"), ("set_temp", "V", 1)):
+            L = G.header(w, (), "none")
+            L += [G.plant("%s/f%d" % (d, i), "x", mtime=G.T0 + i, atime=G.T0 + i + (5 if i % 2 else -100)) for i in range(4)]
+            L += [G.plant("%s/.appdata" % d, "D", mode=0o644, mtime=G.T0 - 90, atime=G.T0 - 80),
+                  G.plant("%s/.caf%%e9.idx" % d, "D", mode=0o644, mtime=G.T0 - 70, atime=G.T0 - 60),
+                  "mkdir %s/sub" % d, G.plant("%s/sub/inner" % d, "I", mode=0o644, mtime=G.T0 - 50, atime=G.T0 - 40)]
+            L += [G.FIRE, "snap", G.op(0, opk[0], ("ok", 7, 9), *opk[1:]), "snap"]
+            mcases.append(({"name": "ok", "w": w, "op": opk[0], "maintenance": True}, L))
+    mres = S.run_many(mcases)
+    for desc, lines, impl, model, diffs in mres:
+        if diffs:
+            ties.append({"what": "model and implementation disagree (maintenance with dot-prefixed sentinels)", "case": str(desc), "detail": diffs[:4]})
+        else:
+            agree += 1
+        if impl is None or len(impl.snaps) < 2:
+            continue
+        nontriv += 1
+        before = {l.split(" ")[0]: l.split(" ") for l in impl.snaps[0]}
+        after = {l.split(" ")[0]: l.split(" ") for l in impl.snaps[1]}
+        for pth, f in before.items():
+            last = pth.rsplit("/", 1)[-1]
+            reserved = (last.startswith(".") and not last.startswith(".kismet")) or "/sub/" in pth
+            if not reserved or f[1] != "f":
+                continue
+            g = after.get(pth)
+            if g is None or g[2:6] != f[2:6] or g[7] != f[7]:
+                violations.append({"what": "%s with maintenance running changed %s in the reserved namespace: %s -> %s" % (desc["op"], pth, f[2:8], g[2:8] if g else "deleted"),
+                                   "classification": {"kind": "dot-namespace-touched", "utf8": "%" not in last},
+                                   "replay": {"kind": "input", "name": "ok", "op": desc["op"], "writer": str(desc["w"]), "scenario": lines}})
     seen, uniq = set(), []
     for v in violations:
         k = tuple(sorted(v["classification"].items()))
         if k not in seen:
             seen.add(k); uniq.append(v)
-    cov = {"evaluations": len(res), "distinct_nontrivial": nontriv,
-           "rule": "names {empty, each reserved first byte, embedded '/', '..' components, trailing '/' and '/.', 255/256/1000%s-byte names, non-ASCII, spaces/control characters%s} x {get, touch, set, put, set_temp_file, put_temp_file, ensure, get_or_update/Replace, read-only get/touch, direct plain/sharded API} x {plain, sharded, read-only-only} stacks, with sentinel files around and inside the cache root: result class, mutating calls of the trace, before/after snapshots; and model/implementation agreement. Non-trivial = rejected name or a byte outside [A-Za-z0-9_-]." % (("" if ctx.quick() else "/4096"), ("" if ctx.quick() else ", NUL, random mutations")),
+    cov = {"evaluations": len(res) + len(mres), "distinct_nontrivial": nontriv,
+           "rule": "names {empty, each reserved first byte, embedded '/', '..' components, trailing '/' and '/.', 255/256/1000%s-byte names, non-ASCII, spaces/control characters%s} x {get, touch, set, put, set_temp_file, put_temp_file, ensure, get_or_update/Replace, read-only get/touch, direct plain/sharded API} x {plain, sharded, read-only-only} stacks, with sentinel files around and inside the cache root: result class, mutating calls of the trace, before/after snapshots; and model/implementation agreement; plus accepted names written over capacity with maintenance firing next to dot-prefixed application files (one with a non-UTF-8 name) and a nested sub-directory: nothing reserved may change. Non-trivial = rejected name or a byte outside [A-Za-z0-9_-], or a maintenance case." % (("" if ctx.quick() else "/4096"), ("" if ctx.quick() else ", NUL, random mutations")),
            "samples": samples, "traces_validated_against_impl": agree}
     if not ctx.quick():
         rc, o = C.coqchk(PROPS)
